@@ -616,3 +616,81 @@ func init() {
 	register(&Scenario{Name: "close-from-hook-keeps-working", Prop: "C12", Horizon: time.Hour, Weight: 1, Run: c10CloseFromHook})
 	register(&Scenario{Name: "close-from-hook-lifecycle", Prop: "C13", Horizon: time.Hour, Weight: 1, Run: c10CloseFromHook})
 }
+
+// c10DialSilentPeer: the dedicated cell for a dial that is still in flight
+// when the socket is closed, against a peer that accepted the connection and
+// then stays silent for good (no SP header, no TLS hello, no HTTP answer).
+// "Whatever was in progress at the time" includes this: the dialer's goroutine
+// and its connection must not outlive Close. (Known finding: the transport
+// dialers have no way to abort a handshake and no handshake timeout, so both
+// stay until the peer moves.) When the peer finally hangs up, everything must
+// be gone - that part is asserted separately.
+func c10DialSilentPeer(w *W) {
+	kind := allKinds[w.Choose(simrt.SShape, len(allKinds))]
+	tran := w.simFallback([]string{"sim", "simipc", "tcp", "ipc", "tls+tcp", "ws", "wss"}[w.Choose(simrt.SShape, 7)])
+	what := []string{"socket", "dialer"}[w.Choose(simrt.SShape, 2)]
+	w.SetShape("kind", kind)
+	w.SetShape("tran", tran)
+	w.SetShape("close", what)
+	nt := w.UseNet(NetCfg{})
+	addr := w.Addr(tran)
+	hl, err := nt.Listen(NetKey(addr))
+	if err != nil {
+		w.Failf("HARNESS/listen", "%v", err)
+		return
+	}
+	defer hl.Close()
+	s := w.Sock(kind)
+	d, err := s.NewDialer(addr, w.EpOpts(addr, false, map[string]interface{}{mangos.OptionDialAsynch: true, mangos.OptionReconnectTime: 10 * time.Millisecond}))
+	if err != nil {
+		w.Failf("HARNESS/newdialer", "%v", err)
+		return
+	}
+	_ = d.Dial()
+	w.Sleep(5 * time.Millisecond)
+	w.Settle()
+	w.Fault("hs-stall")
+	w.Op("%s dials a peer over %s that accepts and stays silent; Close %s", kind, tran, what)
+	var cl *Call
+	if what == "socket" {
+		cl = w.Do("Socket.Close", func() (interface{}, error) { return nil, s.Close() })
+	} else {
+		cl = w.Do("Dialer.Close", func() (interface{}, error) { return nil, d.Close() })
+	}
+	if !cl.Wait(time.Second) {
+		w.Failf("C10/close-blocked", "%s over %s: Close of the %s does not return while a dial is in flight to a silent peer", kind, tran, what)
+		return
+	}
+	if what == "dialer" {
+		s.Close()
+	}
+	w.Sleep(30 * time.Second)
+	w.Settle()
+	outlived := ""
+	if lt := w.LibTasks(); len(lt) > 0 {
+		w.Probe("dial-in-flight-outlived-close")
+		outlived = fmt.Sprintf("%s over %s: 30s after Close of the %s the dial to a peer that accepted and stays silent is still in flight: %d library tasks and %d connections remain (first: %s at %s)", kind, tran, what, len(lt), len(nt.OpenConns()), lt[0].ID, lt[0].ParkSite)
+	}
+	// the peer hangs up at last: now nothing may remain
+	hl.Close()
+	w.Sleep(30 * time.Second)
+	w.Settle()
+	w.NoHygiene = true
+	if lt := w.LibTasks(); len(lt) > 0 {
+		w.Failf("C10/goroutine-left:"+lt[0].Site, "%s over %s: the silent peer hung up 30s ago and the socket was closed before that; %d library tasks remain (first: %s at %s)", kind, tran, len(lt), lt[0].ID, lt[0].ParkSite)
+		return
+	}
+	if oc := nt.OpenConns(); len(oc) > 0 {
+		w.Failf("C10/connection-left-open", "%s over %s: after the peer hung up %d connections are still open at the library's end: %v", kind, tran, len(oc), oc)
+		return
+	}
+	w.Delivery++
+	// (reported last, so that anything else wrong in this run is reported first)
+	if outlived != "" {
+		w.Failf("C10/dial-to-silent-peer-outlives-close:"+tran, "%s", outlived)
+	}
+}
+
+func init() {
+	register(&Scenario{Name: "dial-to-silent-peer", Prop: "C10", Horizon: time.Hour, Weight: 6, Run: c10DialSilentPeer})
+}
